@@ -604,6 +604,7 @@ func multiRun(cfg multiCfg) int {
 	status := "ok"
 	last := -1
 	nsteps := 0
+	var trace []string
 	for {
 		var cand []int
 		for i := range ths {
@@ -645,8 +646,11 @@ func multiRun(cfg multiCfg) int {
 		if tids[i] < 0 {
 			tids[i] = s.Go(ths[i].fn)
 			info = s.Last(tids[i])
+			trace = append(trace, fmt.Sprintf("t%d spawn next=%s@%x", i, info.Label, info.Addr))
 		} else {
+			pre := s.Last(tids[i])
 			info = s.Step(tids[i])
+			trace = append(trace, fmt.Sprintf("t%d %s@%x -> next=%s@%x done=%v", i, pre.Label, pre.Addr, info.Label, info.Addr, info.Done))
 		}
 		if info.Panic != "" {
 			status = "panic"
@@ -664,6 +668,16 @@ func multiRun(cfg multiCfg) int {
 				got = pf.Count[fmt.Sprintf("m%d", i)]
 			}
 			fields = append(fields, U(want[i]), U(got), U(counter.VerifExtra(cs[i])))
+			if os.Getenv("VH_MULTIDEBUG") != "" && (got != want[i] || counter.VerifExtra(cs[i]) != 0) {
+				fmt.Fprintf(os.Stderr, "MULTI-BAD counter m%d want=%d got=%d extra=%d word=%x stateaddr=%x\n", i, want[i], got, counter.VerifExtra(cs[i]), counter.VerifWord(cs[i]), counter.VerifStateAddr(cs[i]))
+				for k := range cs {
+					fmt.Fprintf(os.Stderr, "  m%d stateaddr=%x word=%x\n", k, counter.VerifStateAddr(cs[k]), counter.VerifWord(cs[k]))
+				}
+				fmt.Fprintf(os.Stderr, "  cur=%x mu=%x\n", f.CurAddr(), f.MuAddr())
+				for _, l := range trace {
+					fmt.Fprintln(os.Stderr, "  "+l)
+				}
+			}
 		}
 	}
 	out.Case(true, fields...)
